@@ -172,6 +172,8 @@ def apply(text, opts, kind='fn'):
         # R8: Entry::Vacant idiom -> contains_key / insert (a VacantEntry holds &mut to the map)
         text = _sub(r'if let Entry::Vacant\((\w+)\) = ([\w.]+)\.entry\(([^()]*)\)\s*\{\s*\1\.insert\(([^;]*)\);\s*\}',
                     r'if !\2.contains_key(&\3) { \2.insert(\3, \4); }', text, counts, 'R8')
+        # R13: `RECV.map(|v| BODY).unwrap_or(D)` -> `match RECV { Some(v) => BODY, None => D }`
+        text = rule_R13(text, counts)
         # R3
         text = _sub(r'\btake\(([^()]*(?:\([^()]*\))?[^()]*)\)\(([^()]*)\)', r'take_n(\1, \2)', text, counts, 'R3')
         # R4
@@ -183,6 +185,7 @@ def apply(text, opts, kind='fn'):
         # R5
         text = _sub(r'\b(u16|u32|u64|i32|i64|f64)::from_be_bytes\(', r'\1_from_be_bytes(', text, counts, 'R5')
         text = _sub(r'\b(u16|u32|u64|i32|i64|f64)::from_le_bytes\(', r'\1_from_le_bytes(', text, counts, 'R5')
+    text = rule_D7(text, counts)
     # D5
     if not opts.get('keep_pub'):
         pass
@@ -239,3 +242,98 @@ def rule_R6(text, counts):
         tail = tail[:k] + re.sub(r'(?<![A-Za-z0-9_.])%s(?![A-Za-z0-9_])' % re.escape(name), '(*%s)' % name, tail[k:])
         text = head + tail
         counts['R6'] = counts.get('R6', 0) + 1
+
+
+def rule_D7(text, counts):
+    """two-argument `Result<A, B>` is std's Result even where a one-argument alias `Result<T>` is in scope"""
+    out = []
+    pos = 0
+    for m in re.finditer(r'(?<![A-Za-z0-9_:])Result<', text):
+        if m.start() < pos:
+            continue
+        # matching '>'
+        depth = 0
+        k = m.end() - 1
+        end = None
+        while k < len(text):
+            ch = text[k]
+            if ch == '<':
+                depth += 1
+            elif ch == '>' and text[k - 1] != '-' and text[k - 1] != '=':
+                depth -= 1
+                if depth == 0:
+                    end = k
+                    break
+            elif ch in ';{':
+                break
+            k += 1
+        if end is None:
+            continue
+        inner = text[m.end():end]
+        d = 0
+        commas = 0
+        for ch in inner:
+            if ch in '<([':
+                d += 1
+            elif ch in '>)]':
+                d -= 1
+            elif ch == ',' and d == 0:
+                commas += 1
+        if commas == 1:
+            out.append(text[pos:m.start()])
+            out.append('std::result::')
+            pos = m.start()
+            counts['D7'] = counts.get('D7', 0) + 1
+    out.append(text[pos:])
+    return ''.join(out)
+
+
+def rule_R13(text, counts):
+    """Option combinator chain with an unannotated closure -> explicit match (assumed std equivalence).
+    Handles `let X = RECV .map(|v| BODY) .unwrap_or(D);` and a function body that is exactly such a chain."""
+    rx = re.compile(r'\.map\(\|(\w+)\|\s*')
+    pos = 0
+    while True:
+        msk = mask(text)
+        m = rx.search(msk, pos)
+        if not m:
+            return text
+        op = msk.find('(', m.start())
+        cl = match_brace(msk, op, '(', ')')
+        after = re.match(r'\s*\.unwrap_or\(', msk[cl + 1:])
+        if not after:
+            pos = m.end()
+            continue
+        uo = cl + 1 + after.end() - 1
+        ucl = match_brace(msk, uo, '(', ')')
+        body = text[m.end():cl]
+        dflt = text[uo + 1:ucl]
+        # receiver: back to `=` of a let, or to the `{` that opens the fn body
+        k = m.start()
+        depth = 0
+        start = None
+        while k > 0:
+            k -= 1
+            ch = msk[k]
+            if ch in ')]}':
+                depth += 1
+            elif ch in '([{':
+                if depth == 0:
+                    start = k + 1
+                    break
+                depth -= 1
+            elif ch == '=' and depth == 0 and msk[k - 1] not in '=!<>' and msk[k + 1] != '=':
+                start = k + 1
+                break
+            elif ch == ';' and depth == 0:
+                start = k + 1
+                break
+        if start is None:
+            pos = m.end()
+            continue
+        recv = text[start:m.start()]
+        old = text[start:ucl + 1]
+        new = ' match %s { Some(%s) => %s, None => %s }' % (recv.strip(), m.group(1), body.strip(), dflt.strip())
+        text = text[:start] + _keep_nl(old, new) + text[ucl + 1:]
+        counts['R13'] = counts.get('R13', 0) + 1
+        pos = start + len(new)
